@@ -21,11 +21,15 @@
    NOT proved here (partial):
      * "Pandas and Polars agree": polars_model.py is not modelled; covered by the differential oracle of the harness only.
      * composition: it is proved that a map with the first map's input side and an output side with the second map's layout
-       (composite_ok) IS sequential application (the C17_compose_sound_partial theorems); that compose() returns such a map is shown on
-       instances only (Examples below, by computation) and sampled by the correspondence check, not proved for all maps.
-       On the unchanged tree compose() passes value_suffix " value" and the statement is FALSE for composites that take or
-       return row records: C17_compose_refuted_rows_in / _rows_out (known finding C17-compose-leaks-example-value-suffix).
-       For a first map that drops value names it is false whatever the suffix: C17_compose_refuted_lossy. *)
+       (composite_ok) IS sequential application (the C17_compose_sound_partial theorems, for maps over the same records:
+       same_records).  That compose() returns such a map is shown on instances (Examples below, by computation) and
+       evaluated inside Coq on EVERY composite the harness samples (case kind KComposeOk), not proved for all maps.
+       Two refutations keep the statement honest:
+         - C17_compose_refuted_rows_in / _rows_out: with value_suffix " value" (the code before /repo 031522a) composites that
+           take or return row records were wrong (fixed: C17 031522a; the check reads the suffix from the source, so the
+           defect is reported again if it returns);
+         - C17_compose_refuted_lossy: a strict blocks -> blocks map may drop value names; its composite with a map to rows
+           keeps them (known finding C17-compose-keeps-values-a-lossy-map-drops) -- hence the guard same_records. *)
 From Coq Require Import List Bool ZArith QArith String Permutation.
 Import ListNotations.
 From DA Require Import Base.PyRT Base.Val Model.CData Proofs.CDataP4 Proofs.CDataP5 Proofs.CDataP6 Proofs.CDataP7 Proofs.CDataEx.
@@ -94,8 +98,8 @@ Theorem C17_compose_sound_partial_blocks_rows : forall sfx A B t c,
 Proof. exact compose_sound_blocks_rows. Qed.
 Print Assumptions C17_compose_sound_partial_blocks_rows.
 
-(* with the value_suffix of the unchanged tree the full statement is false: a composite that takes row records rejects
-   the table the sequence transforms ... *)
+(* with value_suffix " value" (compose() before /repo 031522a) the statement is false: a composite that takes row records
+   rejects the table the sequence transforms ... *)
 Theorem C17_compose_refuted_rows_in : exists A B t c y z,
   strict_spec A = true /\ strict_spec B = true /\ same_records A B = true /\ conforming_rows A t = true /\
   compose " value" (mkmap (Some A) (Some B) true) (mkmap None (Some A) true) = CMap c /\
@@ -152,14 +156,15 @@ Example C17_ex_transform : transform m_rA ex_rows =
   Ok (mktable ["id"; "k"; "v1"; "v2"]%string
         [[n 1 1; s "a"; n 5 2; VNull]; [n 1 1; s "b"; n 3 1; n 5 1]; [n 2 1; s "a"; n 3 2; s "s"]; [n 2 1; s "b"; VNull; n 4 1]]).
 Proof. vm_compute. reflexivity. Qed.
-(* with value_suffix "" (the proposed repair) compose() builds a composite_ok map for each shape, so the partial theorems apply *)
+(* with value_suffix "" (compose() since /repo 031522a) compose() builds a composite_ok map for each shape, so the partial
+   theorems apply *)
 Example C17_ex_compose_fixed_suffix :
   (exists c, compose "" m_AB m_rA = CMap c /\ composite_ok None (Some ex_B) c = true) /\
   (exists c, compose "" m_BC m_AB = CMap c /\ composite_ok (Some ex_A) (Some ex_C) c = true) /\
   (exists c, compose "" m_Br m_AB = CMap c /\ composite_ok (Some ex_A) None c = true).
 Proof. split; [|split]; eexists; split; vm_compute; reflexivity. Qed.
 (* ... and with " value" it does not, except for blocks -> blocks where the suffixed names stay internal: *)
-Example C17_ex_compose_current_suffix :
+Example C17_ex_compose_old_suffix :
   composite_ok None (Some ex_B) (unwrap (compose " value" m_AB m_rA)) = false /\
   composite_ok (Some ex_A) None (unwrap (compose " value" m_Br m_AB)) = false /\
   table_eqvb (get_ok (transform (unwrap (compose " value" m_BC m_AB)) ex_blocks))
